@@ -41,7 +41,8 @@ def draw_case(data, tier):
     d = {'prog': prog, 'axes': [perm[:k], perm[k:]], 'f': f, 'sU': data.draw(st.sampled_from([1, -1])),
          'nU': data.draw(st.booleans()), 'seed': data.draw(st.integers(0, 99999)),
          'Uaxis': data.draw(st.integers(-(k + 1), k)), 'Vaxis': data.draw(st.integers(-(m.ndim - k + 1), m.ndim - k)),
-         'which': data.draw(st.sampled_from(['LM', 'LR', 'SR', 'SM'])), 'fix_signs': data.draw(st.booleans())}
+         'which': data.draw(st.sampled_from(['LM', 'LR', 'SR', 'SM'])), 'fix_signs': data.draw(st.booleans()),
+         'gfuse': data.draw(st.sampled_from([0, 1, 2, 0]))}
     return d
 
 
@@ -222,15 +223,26 @@ def execute(desc):
                 raise Reject('zero_tensor')
             g2 = g2 + (0.61 * g2.norm()) * yastn.eye(g2.config, legs=g2.get_legs(), isdiag=False)
             g = g2.unfuse_legs(axes=(0, 1)) if kl > 1 else g2
-            gaxes = (tuple(range(kl)), tuple(range(kl, 2 * kl)))
+            # optionally meta-fuse only ONE of the two (mirrored) leg groups: the factors must inherit the fusion of their own group
+            kL = kR = kl
+            gf = desc.get('gfuse', 0)
+            if gf == 1 and kl > 1:
+                g = g.fuse_legs(axes=(tuple(range(kl)),) + tuple(range(kl, 2 * kl)), mode='meta')
+                kL = 1
+                labels.append('eig:left_group_meta_fused')
+            elif gf == 2 and kl > 1:
+                g = g.fuse_legs(axes=tuple(range(kl)) + (tuple(range(kl, 2 * kl)),), mode='meta')
+                kR = 1
+                labels.append('eig:right_group_meta_fused')
+            gaxes = (tuple(range(kL)), tuple(range(kL, kL + kR)))
             gs = max(1.0, float(g.norm()))
-            Ua, Va = desc['Uaxis'] % (kl + 1), desc['Vaxis'] % (kl + 1)
+            Ua, Va = desc['Uaxis'] % (kL + 1), desc['Vaxis'] % (kR + 1)
             which = desc['which']
             try:
                 U, S, V = g.eig(axes=gaxes, sU=sU, nU=nU, Uaxis=Ua, Vaxis=Va, which=which)
             except (ValueError, np.linalg.LinAlgError) as e:
                 # a rejection is legitimate only for (nearly) degenerate / defective blocks: decide that densely
-                gm = g.fuse_legs(axes=gaxes, mode='hard') if kl > 1 else g
+                gm = g.fuse_legs(axes=gaxes, mode='hard').fuse_meta_to_hard() if kl > 1 else g
                 generic = True
                 for key in gm.get_blocks_charge():
                     M = np.asarray(gm[key])
@@ -258,7 +270,14 @@ def execute(desc):
             ok, err = close(g, Um @ S @ Vm, gs * cond)
             if not ok:
                 raise Violation('eig:reconstruction', f'|a - U S V| = {err:.3e} (cond ~ {cond:.1e})')
-            gg = yastn.tensordot(Vm, Um, axes=(tuple(range(1, kl + 1)), tuple(range(kl))))
+            if U.ndim != kL + 1 or V.ndim != kR + 1:
+                raise Violation('eig:factor_rank', f'U.ndim = {U.ndim}, V.ndim = {V.ndim} for groups of {kL} and {kR} (meta-fused) legs')
+            if kL != kR:    # compare through hard-fused single legs (a meta-fused pair and a hard-fused pair describe the same product space)
+                Uh = Um.fuse_legs(axes=(tuple(range(kL)), kL), mode='hard').fuse_meta_to_hard()
+                Vh = Vm.fuse_legs(axes=(0, tuple(range(1, kR + 1))), mode='hard').fuse_meta_to_hard()
+                gg = yastn.tensordot(Vh, Uh, axes=(1, 0))
+            else:
+                gg = yastn.tensordot(Vm, Um, axes=(tuple(range(1, kl + 1)), tuple(range(kl))))
             ok, err = is_identity(gg, cond)
             if not ok:
                 raise Violation('eig:biorthonormal', f'V U deviates from 1 by {err} (cond ~ {cond:.1e})')
